@@ -59,7 +59,7 @@ class GridInterpolationVariationalStrategy(_VariationalStrategy):
         interp_indices = interp_indices.view(*batch_shape, n_data, -1)
         interp_values = interp_values.view(*batch_shape, n_data, -1)
 
-        if (interp_indices.dim() - 2) != len(self._variational_distribution.batch_shape):
+        if interp_indices.shape[:-2] != self._variational_distribution.batch_shape:
             batch_shape = torch.broadcast_shapes(interp_indices.shape[:-2], self._variational_distribution.batch_shape)
             interp_indices = interp_indices.expand(*batch_shape, *interp_indices.shape[-2:])
             interp_values = interp_values.expand(*batch_shape, *interp_values.shape[-2:])
